@@ -134,6 +134,9 @@ class Check:
             "known_findings_seen": {k: v["n"] for k, v in self.known_hits.items()},
             "notes": self.notes,
         }
+        for k in ("states", "transitions"):
+            if not self.cov.get(k):
+                self.cov.pop(k, None)
         if not self.cov["samples"]:
             self.cov["samples"] = ["(no sample recorded)"]
         EVIDENCE.mkdir(exist_ok=True)
@@ -142,7 +145,7 @@ class Check:
         for ln in lines:
             print(ln)
         print(f"[{self.pid}] tier={self.tier} evaluations={self.cov['evaluations']} distinct={self.cov['distinct_nontrivial']} "
-              f"states={self.cov['states']} traces={self.cov['traces_validated_against_impl']} violations={len(seen)} "
+              f"states={self.cov.get('states', 0)} traces={self.cov['traces_validated_against_impl']} violations={len(seen)} "
               f"known={len(self.known_hits)} wall={ev['wall_s']}s")
         return rc
 
